@@ -9,7 +9,7 @@ returns `some`).  Applied to the transposed diagonal block this is the first row
 The buffer is viewed through `get2 B A i j = A[i*B + j]` (`Proofs/Array2.lean`).
 -/
 namespace Amgcl.CPR
-open Amgcl Finset
+open Amgcl Amgcl.Arr2 Finset
 
 section step
 variable {K : Type} [Field K] [DecidableEq K]
@@ -170,7 +170,7 @@ end step
 end Amgcl.CPR
 
 namespace Amgcl.CPR
-open Amgcl Finset
+open Amgcl Amgcl.Arr2 Finset
 
 section lu
 variable {K : Type} [Field K] [DecidableEq K]
@@ -327,7 +327,7 @@ end lu
 end Amgcl.CPR
 
 namespace Amgcl.CPR
-open Amgcl Finset
+open Amgcl Amgcl.Arr2 Finset
 
 section solve
 variable {K : Type} [Field K] [DecidableEq K]
@@ -447,7 +447,7 @@ end solve
 end Amgcl.CPR
 
 namespace Amgcl.CPR
-open Amgcl Finset
+open Amgcl Amgcl.Arr2 Finset
 
 section final
 variable {K : Type} [Field K] [DecidableEq K]
